@@ -70,6 +70,8 @@ def build(shard, vi, seed):
             par = dict(M=M[0], b=b[0], Sy=Sy[0], cen=cen, ls=ls)
         else:
             W = np.array([np.concatenate([[0.4 * (k + 1) * (-1) ** k], al.int_vector(Dx, salt=k + 1 + vi) * 0.4]) for k in range(Dk)])
+            if vi == 0 and Dk >= 2:
+                W[-1, 1:] = 0.0  # a legal constant feature exp(-w0^2/2): all-zero weight vector
             if vi >= 100:
                 rng = al.rng_for(seed, "c16sem", Dx, Dk, vi)
                 W = rng.uniform(-1, 1, size=(Dk, Dx + 1))
@@ -249,7 +251,7 @@ def run_shard(shard, ctx):
             X = np.concatenate([al.points(3, Dx, salt=vi), par["cen"] if kind == "LRBF" else np.zeros((0, Dx))], axis=0)
             if kind == "LSEM":
                 # points on the hyperplanes w_i'x + w_i0 = 0
-                hp = np.array([-par["w0"][k] * par["w"][k] / (par["w"][k] @ par["w"][k]) for k in range(len(par["w0"]))])
+                hp = np.array([-par["w0"][k] * par["w"][k] / (par["w"][k] @ par["w"][k]) for k in range(len(par["w0"])) if par["w"][k] @ par["w"][k] > 0]).reshape(-1, Dx)
                 X = np.concatenate([X, hp], axis=0)
             with ctx.guard("readout.call", facts):
                 px = cond.condition_on_x(J(X))
